@@ -9,6 +9,13 @@ hook_commits = [l.split()[0] for l in HOOK_COMMITS if "verif" in l.lower() and n
 
 # id -> (engine, technique, level text, level note, design ref)
 CHECKS = {
+    "C09": (
+        "E2",
+        "bounded-exhaustive type-directed enumeration of all well-typed expressions up to size N over a scaffold session, each compared with an independent big-step reference evaluator",
+        "Every well-typed expression of size <= 5 (quick, 250k programs) / 6 (thorough) of type number, boolean, list, string, struct or function value over a scaffold session that forces shadowing, capture before redefinition of variables and functions, parameter and where-local shadowing, recursion, two-parameter calls, function values chosen by conditionals, reverse application, struct literals in both field orders, list construction and string interpolation is evaluated by the real pipeline (in a clone of the scaffold session) and by a reference evaluator with lexical scoping, call by value, lazy conditionals and IEEE arithmetic; values are compared structurally and bit-exactly.",
+        "Trusted: the reference evaluator (about 250 lines) and its reading of the scoping rules, which the suite's own overwrite tests pin; expressions on which the reference raises are unspecified; number formatting inside strings is delegated to the implementation.",
+        "§4 C09",
+    ),
     "C08": (
         "E2",
         "exhaustive enumeration of all token strings up to length L over a 52-token alphabet (one spelling of every token kind) in fresh and prelude sessions, plus every (template x extreme) input in an isolated child process",
